@@ -4,7 +4,75 @@
 // over the whole packet-level decode API.  The memory oracle is ASan/UBSan/LSan plus the 8 MiB stack; the semantic oracle checks
 // return-code sets, pcmout bounds and that the clear functions always work.
 #include "../vfmodel.h"
+#define class class_   /* lib/backends.h uses the identifier */
+extern "C" {
+#include "codec_internal.h"
+}
+#undef class
+#undef max
+#undef min
 const char *prop_id() { return "C02"; }
+
+// Heap accounting ("within a ... heap budget fixed by the format's field widths rather than growing without bound"): the bytes the
+// library holds are the sum, over library calls, of the change of the allocator's live-byte count across the call (the harness
+// allocates nothing inside a call).  Available in the ASan build (the deciding build); elsewhere the count is 0 and the clauses are inert.
+#if defined(__has_feature)
+#if __has_feature(address_sanitizer)
+#include <sanitizer/allocator_interface.h>
+#define C02_LIVE() ((long)__sanitizer_get_current_allocated_bytes())
+#endif
+#endif
+#ifndef C02_LIVE
+#define C02_LIVE() 0L
+#endif
+// What the accepted headers entitle the library to hold (a deliberately generous closed form, four times what the structures the
+// fields describe need): static books (a length per entry, an explicit value table of entries*dim), decode books (value table of
+// entries*dim floats, codeword / index / length tables, a first-level lookup table), one residue decode map per residue (bounded by its
+// phrase book), PCM and block storage proportional to channels * long block size, transforms proportional to the block sizes.
+static double c02_budget(const vorbis_info &vi, long hdr_bytes, bool decoder) {
+  double b = 262144 + 16.0 * (double)hdr_bytes;
+  const codec_setup_info *ci = (const codec_setup_info *)vi.codec_setup; if (!ci) return b;
+  b += 1 << 20;
+  double books = 0, maxbook = 0; int nb = ci->books < 0 ? 0 : ci->books > 256 ? 256 : ci->books;
+  for (int i = 0; i < nb; i++) { const static_codebook *c = ci->book_param[i]; double e, d;   // (a successful vorbis_synthesis_init releases the static books and keeps the decode books)
+    if (c) { e = (double)c->entries; d = (double)c->dim; } else if (ci->fullbooks) { e = (double)ci->fullbooks[i].entries; d = (double)ci->fullbooks[i].dim; } else continue;
+    if (e < 0 || d < 0) continue;
+    double one = e * (d * 12.0 + 48.0) + 600000.0; books += one; if (one > maxbook) maxbook = one; }
+  double bs1 = (double)ci->blocksizes[1], ch = (double)(vi.channels > 0 ? vi.channels : 1); if (bs1 < 64) bs1 = 64; if (bs1 > 8192) bs1 = 8192;
+  b += 4.0 * books;
+  if (decoder) b += 4.0 * (64.0 * maxbook + ch * bs1 * 64.0 + ch * 8192.0 * 32.0 + 64.0 * bs1 * 32.0);
+  return b;
+}
+
+// Steady state: decoding the same packets over and over must not make the library hold more and more memory.  After two passes over
+// the stream every per-packet need has been seen (block-local storage is consolidated to the largest need by then), so the bytes held
+// after pass 2 and after the last pass must be EQUAL.
+static bool c02_soak(Tape &t, Report &r, const LStream &s, const std::string &cd) {
+  vorbis_info vi; vorbis_comment vc; vorbis_dsp_state vd; vorbis_block vb; vorbis_info_init(&vi); vorbis_comment_init(&vc);
+  for (int i = 0; i < 3; i++) { ogg_packet op; s.hdr[i].to_ogg(op); if (vorbis_synthesis_headerin(&vi, &vc, &op)) { vorbis_comment_clear(&vc); vorbis_info_clear(&vi); r.label("soak: headers not accepted (mutated)"); return true; } }
+  if (vorbis_synthesis_init(&vd, &vi)) { vorbis_dsp_clear(&vd); vorbis_comment_clear(&vc); vorbis_info_clear(&vi); r.label("soak: init refused"); return true; }
+  vorbis_block_init(&vd, &vb);
+  int passes = 4 + (int)t.below(s.channels > 16 || s.bs1 > 2048 ? 4 : 24); int style = (int)t.below(4);   // 0 plain, 1 restart between passes, 2 lapout each packet, 3 a fresh block each pass
+  long live2 = 0, liveN = 0, lib = 0; bool ok = true; long decoded = 0;
+  for (int p = 0; p < passes && ok; p++) {
+    if (p && style == 1) { long b0 = C02_LIVE(); vorbis_synthesis_restart(&vd); lib += C02_LIVE() - b0; }
+    if (p && style == 3) { long b0 = C02_LIVE(); vorbis_block_clear(&vb); vorbis_block_init(&vd, &vb); lib += C02_LIVE() - b0; }
+    for (size_t k = 0; k < s.audio.size(); k++) {
+      ogg_packet op; s.audio[k].to_ogg(op); op.granulepos = -1; op.e_o_s = 0; op.packetno = (ogg_int64_t)(p * s.audio.size() + k);
+      long b0 = C02_LIVE();
+      if (vorbis_synthesis(&vb, &op) == 0 && vorbis_synthesis_blockin(&vd, &vb) == 0) decoded++;
+      float **pcm; int n; while ((n = vorbis_synthesis_pcmout(&vd, &pcm)) > 0) vorbis_synthesis_read(&vd, n);
+      if (style == 2) vorbis_synthesis_lapout(&vd, &pcm);
+      lib += C02_LIVE() - b0;
+    }
+    if (p == 1) live2 = lib; liveN = lib;
+  }
+  vorbis_block_clear(&vb); vorbis_dsp_clear(&vd); vorbis_comment_clear(&vc); vorbis_info_clear(&vi);
+  r.label("soak: repeated decode of one stream"); if (decoded) r.label("soak: decoded blocks");
+  if (liveN != live2) return r.fail("the decoder holds %ld more bytes after %d passes over the same %zu packets than after 2 passes (style %d): memory grows with the number of packets decoded [%s]", liveN - live2, passes, s.audio.size(), style, cd.c_str());
+  r.nontriv(fnv1a(cd.data(), cd.size()) ^ (uint64_t)passes * 977 ^ (uint64_t)style);
+  return true;
+}
 
 static bool in_set(long v, std::initializer_list<long> s) { for (long x : s) if (x == v) return true; return false; }
 template <class T> static bool is_zero(const T &x) { const unsigned char *p = (const unsigned char *)&x; for (size_t i = 0; i < sizeof x; i++) if (p[i]) return false; return true; }
@@ -49,9 +117,11 @@ bool prop_run(Tape &t, Report &r) {
     else if (kind == 6) { Bulk rb(t.raw() | 1); Pkt p; p.data.resize(rb.below(2000)); for (auto &x : p.data) x = (uint8_t)rb.below(256); s.hdr[t.below(3)] = p; md += "a header replaced by random bytes "; }
   }
   std::string cd = desc + " | " + md;
+  if (g_tape_gen >= 4 && t.chance(1, 10)) return c02_soak(t, r, s, cd);
   // ---- decode script
   vorbis_info vi; vorbis_comment vc; vorbis_dsp_state vd; vorbis_block vb; memset(&vd, 0x5b, sizeof vd); memset(&vb, 0x5b, sizeof vb);
-  vorbis_info_init(&vi); vorbis_comment_init(&vc); bool have_vd = false, have_vb = false, block_ok = false, hs_after_init = false; int hdr_ok = 0; long decoded_blocks = 0; std::string hist; int bs1 = 0;
+  long lib_live = 0, hdr_bytes = 0; bool ever_decoder = false;
+  vorbis_info_init(&vi); vorbis_comment_init(&vc); bool have_vd = false, have_vb = false, block_ok = false, hs_after_init = false; int hdr_ok = 0; long decoded_blocks = 0; std::string hist; int bs1 = 0; hist.reserve(1 << 15);   // (the history string must not grow inside the accounted region)
   auto fin = [&]() { for (int round = 0; round < 2; round++) { if (have_vb) vorbis_block_clear(&vb); if (have_vd) vorbis_dsp_clear(&vd); vorbis_comment_clear(&vc); vorbis_info_clear(&vi); } };
   auto bail = [&](const char *fmt, long a, long b) { char buf[512]; snprintf(buf, sizeof buf, fmt, a, b); fin(); return r.fail("%s [hist %s] [%s]", buf, hist.c_str(), cd.c_str()); };
   int nops = 4 + (int)t.below(40); size_t nexthdr = 0, nextpkt = 0; int cyc = 0; bool straight = !t.chance(1, 4);   // straight: the decoder_example.c order first (headers, init, then mostly synthesis/blockin/pcmout cycles), else free-form
@@ -66,6 +136,14 @@ bool prop_run(Tape &t, Report &r) {
     else if (straight && !have_vd && hdr_ok == 3 && i < (g_tape_gen >= 3 ? 8 : 6)) op = 1;
     else if (straight && have_vb && t.below(4) != 0) { op = block_ok ? 4 : (cyc == 2 ? 5 : 2); cyc = op == 2 ? 1 : op == 4 ? 2 : 0; }
     else op = t.weighted({3, 2, 8, 2, 4, 4, 1, 1, 1, 2, 1, 1, 1, 1, 1});
+    if (g_tape_gen >= 4 && i) {   // heap budget, evaluated on what the previous calls left behind
+      double bud = c02_budget(vi, hdr_bytes, ever_decoder); r.metric_max("bytes held by the library / budget from the accepted header fields", (double)lib_live / bud);
+      if ((double)lib_live > bud) return bail("the library holds %ld bytes, the fields of the accepted headers entitle it to %ld", lib_live, (long)bud);
+    }
+    long live_before = C02_LIVE();
+    if (op == 0) hdr_bytes += (long)std::max(s.hdr[0].data.size(), std::max(s.hdr[1].data.size(), s.hdr[2].data.size()));
+    if (op == 1) ever_decoder = true;
+    struct Acc { long &l; long b; ~Acc() { l += C02_LIVE() - b; } } acc_{lib_live, live_before};
     switch (op) {
       case 0: { Pkt &p = nexthdr < 3 ? s.hdr[nexthdr] : s.hdr[t.below(3)]; nexthdr++; ogg_packet o2; p.to_ogg(o2); if (t.chance(1, 10)) o2.b_o_s = !o2.b_o_s; if (have_vd) break;   // headers after init: the info is owned by the running decoder (not generated)
         int rr = vorbis_synthesis_headerin(&vi, &vc, &o2); hist += sfmt("hdr=%d ", rr);
